@@ -182,7 +182,7 @@ def run(ctx):
                 ctx.violation(c, {"kind": "forms", "version": ver, "forms": list(f)}, e, o)
 
     # wiring: the run's stored columns are this stage applied to the run's stored columns (see nssmc/pipeline.py)
-    pipeline.run_in(ctx, ['taus'], ('A', 'B'))
+    pipeline.run_in(ctx, ['taus'], ('A', 'B'), plots=['taus_pexit', 'taus_overview'])
     tier = ctx.tier
     for ver in (1, 2, 3):
         T = TR.load(ver)
